@@ -20,6 +20,7 @@ type Config struct {
 	MaxFlightBytes   int  // largest flight
 	MaxDatagrams     int  // per UDP flow
 	MaxCaptures      int  // capture files per scenario
+	MinCaptures      int  // at least this many capture files (if there are that many packets)
 	LongGaps         bool // allow gaps of seconds to minutes between packets (scenarios longer than the importer's 5 min idle timeout)
 	MinPackets       int  // keep adding conversations (beyond MaxConversations) until the scenario has this many packets
 
@@ -42,7 +43,7 @@ func DefaultConfig() Config {
 
 // LargeConfig yields scenarios of at least minPackets packets (real-size captures).
 func LargeConfig(minPackets int) Config {
-	return Config{MinConversations: 40, MaxConversations: 80, MaxFlights: 60, MaxFlightBytes: 60000, MaxDatagrams: 200, MaxCaptures: 3, LongGaps: false, MinPackets: minPackets}
+	return Config{MinConversations: 40, MaxConversations: 80, MaxFlights: 60, MaxFlightBytes: 60000, MaxDatagrams: 200, MinCaptures: 2, MaxCaptures: 3, LongGaps: false, MinPackets: minPackets}
 }
 
 const (
@@ -691,6 +692,9 @@ func cut(t *rapid.T, s *Scenario, cfg Config) {
 	}
 	if k > cfg.MaxCaptures {
 		k = cfg.MaxCaptures
+	}
+	if k < cfg.MinCaptures {
+		k = cfg.MinCaptures
 	}
 	if k > n {
 		k = n
